@@ -1478,6 +1478,11 @@ class ModelBuilder:
                     scenario_idx = self._get_scenario_index(obj.project, scenario_id)
                     if scenario_idx is not None and attr_data and isinstance(attr_data, tuple):
                         attr_key, attr_value = attr_data
+                        if attr_key in ("duration", "length") and isinstance(attr_value, str):
+                            # The unprefixed 'duration' / 'length' statements are not implemented
+                            # (they are read and dropped); storing the raw text "2d" for one
+                            # scenario made schedule() compare a string with a number
+                            continue
                         scenario_overrides.setdefault(attr_key, {})[scenario_idx] = attr_value
                 elif key == "journalentry":
                     # Create a journal entry for this task
